@@ -170,7 +170,8 @@ def E1_lmpdat_writer_reader(repo, clause):
     rets = [n for n in gtt.own_nodes() if isinstance(n, ast.Return)]
     order = [e.id for e in rets[0].value.elts] if rets and isinstance(rets[0].value, ast.Tuple) else []
     ok_reader = len(order) == 2 and rc.get(order[0]) == (1, None) and rc.get(order[1]) == (2, None)
-    obs.append(Ob("E1", clause, gtt, gtt.node, ok_reader, "term reader: type = column 1 minus 1, atoms = columns 2.. minus 1 (%s)" % rc, construct="def get_types_tups", slot="terms:reader"))
+    obs.append(Ob("E1", clause, gtt, gtt.node, ok_reader, "term reader: type = column 1 minus 1, atoms = columns 2.. minus 1 (%s)" % rc, construct="def get_types_tups", slot="terms:reader",
+                  positive=len(order) == 2 and len(rc) >= 1))
     for k in KINDS:
         found = None
         for c, s, a in writes:
@@ -279,6 +280,19 @@ def E1_lmpdat_writer_reader(repo, clause):
         ok = ok and upper_zero
         detail += "; upper triangle zero=%s; diagonal=%s" % (upper_zero, diag_names)
     obs.append(Ob("E1", clause, w, tilt_c if tilt_w else w.node, ok, detail, slot="tilt"))
+    # the triclinic decision examines all three tilt factors
+    if names:
+        tests = []
+        for n_ in r.own_nodes():
+            if isinstance(n_, ast.If):
+                nm_ = {x.id for x in ast.walk(n_.test) if isinstance(x, ast.Name) and x.id in names}
+                if nm_ and any(isinstance(x, ast.Compare) for x in ast.walk(n_.test)) and "xy xz yz" not in ast.unparse(n_.test):
+                    tests.append((n_, nm_))
+        if tests:
+            n_, nm_ = tests[0]
+            obs.append(Ob("E1", clause, r, n_, nm_ == set(names),
+                          "the cell is treated as tilted when ANY of the three tilt factors %s is non-zero (examined: %s)" % (names, sorted(nm_)),
+                          slot="tilt-decision", positive=nm_ < set(names)))
     # lo/hi: writer zip([0,0,0], np.diag(cell)); reader hi - lo
     def _float_sub(e):
         return e.args[0] if isinstance(e, ast.Call) and call_name(e) == "float" and e.args and isinstance(e.args[0], ast.Subscript) else None
@@ -341,7 +355,8 @@ def E_dispatch(repo, clause):
         # extension-derived type strips the dot
         strip = any(isinstance(n, ast.Subscript) and isinstance(n.slice, ast.Slice) and const_value(n.slice.lower) == 1 and n.slice.upper is None
                     for n in fn.own_nodes())
-        obs.append(Ob("E5", clause, fn, fn.node, strip, "type implied by the file extension drops the leading dot", construct="filetype[1:]", slot="%s:ext" % which))
+        obs.append(Ob("E5", clause, fn, fn.node, strip, "type implied by the file extension drops the leading dot", construct="filetype[1:]", slot="%s:ext" % which,
+                      undecided=not any(isinstance(c_, ast.Call) and call_name(c_) == "splitext" for c_ in ast.walk(fn.node))))
     uo = repo.fn("use_or_open")
     ok = any(isinstance(c, ast.Call) and call_name(c) == "open" and len(c.args) >= 2 and isinstance(c.args[1], ast.Name) and c.args[1].id == "mode"
              for c in ast.walk(uo.node))
@@ -379,7 +394,7 @@ def E2_cif_tags(repo, clause):
         n += 1
         ok = t.lower() in rt
         obs.append(Ob("E2", clause, w, node, ok, "tag %s written by save_p1_cif is %s by load_p1_cif" % (t, "consumed" if ok else "NOT consumed"),
-                      construct=t, slot="tag:%s" % t.lower()))
+                      construct=t, slot="tag:%s" % t.lower(), positive=True))
     floor("E2", "CIF tags written", n, 20)
     # s.u. stripping: every float conversion of block values goes through tofloat
     tf = repo.nested(r, "tofloat")
@@ -388,11 +403,12 @@ def E2_cif_tags(repo, clause):
     obs.append(Ob("E2", clause, tf, tf.node, strips, "numeric helper strips a parenthesised standard uncertainty before float()", construct="def tofloat", slot="tofloat"))
     raw = [c for c in calls_in(r) if call_name(c) == "float"]
     obs.append(Ob("E2", clause, r, raw[0] if raw else r.node, not raw, "no raw float() conversion in the reader body (all go through tofloat): %d found" % len(raw),
-                  construct="float(...)" if not raw else None, slot="no-raw-float"))
+                  construct="float(...)" if not raw else None, slot="no-raw-float", positive=bool(raw)))
     uses = calls_named(r, "tofloat")
     coord = [c for c in uses if any(isinstance(a, ast.ListComp) for a in r.ancestors(c))]
     obs.append(Ob("E2", clause, r, uses[0] if uses else r.node, len(coord) >= 4,
-                  "x, y, z and the six cell parameters are converted with tofloat (%d conversion sites)" % len(coord), slot="tofloat-sites"))
+                  "x, y, z and the six cell parameters are converted with tofloat (%d conversion sites)" % len(coord), slot="tofloat-sites",
+                  undecided=len(coord) >= 1))
     # wrap before cell product, only for fractional input
     mods = [s for s in r.own_nodes() if isinstance(s, ast.AugAssign) and isinstance(s.op, ast.Mod) and const_value(s.value) == 1] + \
            [s for s in r.own_nodes() if isinstance(s, ast.Assign) and isinstance(s.value, ast.BinOp) and isinstance(s.value.op, ast.Mod) and const_value(s.value.right) == 1]
@@ -419,11 +435,21 @@ def E2_cif_tags(repo, clause):
             isinstance(cellv, ast.Call) and call_name(cellv) == "cellpar_to_cell"
         obs.append(Ob("E2", clause, r, dots[0], ok, "Cartesian = fractional (rows) . cell (rows = lattice vectors)", slot="frac-to-cart"))
     # writer: fractional = positions . inv(cell)
-    inv = [s for s in w.own_nodes() if isinstance(s, ast.Assign) and isinstance(s.value, ast.Call) and call_name(s.value) == "inv"]
-    fr = [s for s in w.own_nodes() if isinstance(s, ast.Assign) and isinstance(s.value, ast.Call) and call_name(s.value) == "dot"]
-    ok = len(inv) == 1 and len(fr) == 1 and ast.unparse(fr[0].value.func.value) == "self.positions" and isinstance(fr[0].value.args[0], ast.Name) \
-        and fr[0].value.args[0].id == inv[0].targets[0].id and ast.unparse(inv[0].value.args[0]) == "self.cell"
-    obs.append(Ob("E2", clause, w, fr[0] if fr else w.node, ok, "writer: fractional = positions . inverse(cell), the inverse of the reader's product", slot="cart-to-frac"))
+    from .common import linalg_chain
+    frs = []
+    for s in w.own_nodes():
+        if isinstance(s, ast.Assign) and len(s.targets) == 1 and isinstance(s.targets[0], ast.Name):
+            ch = linalg_chain(expand(w, s.value))
+            if ch is not None and len(ch) >= 2 and any(n == "self.positions" for n, t, i in ch):
+                frs.append((s, ch))
+    want = [("self.positions", False, False), ("self.cell", False, True)]
+    if len(frs) == 1:
+        ok = frs[0][1] == want
+        obs.append(Ob("E2", clause, w, frs[0][0], ok,
+                      "writer: fractional = positions . inverse(cell) (matrix chain found: %s; required %s)" % (frs[0][1], want), slot="cart-to-frac", positive=True))
+    else:
+        obs.append(Ob("E2", clause, w, w.node, False, "writer: Cartesian -> fractional conversion not recognised (%d candidate products)" % len(frs),
+                      construct="fractional = positions . inv(cell)", slot="cart-to-frac"))
     # P1 rejection
     rs = [s for s in r.own_nodes() if isinstance(s, ast.Raise)]
     p1 = None
@@ -440,7 +466,25 @@ def E2_cif_tags(repo, clause):
     # torsion block: dihedrals then impropers
     exts = [c for c in calls_in(w) if isinstance(c.func, ast.Attribute) and c.func.attr == "extend" and c.args and is_self_attr(c.args[0])]
     order = [c.args[0].attr for c in exts]
-    obs.append(Ob("E2", clause, w, exts[0] if exts else w.node, order == ["dihedrals", "impropers"], "torsion loop lists dihedrals then impropers (%s)" % order, slot="torsion-order"))
+    if not exts:
+        # one-expression form: np.array([*self.dihedrals, *self.impropers])
+        for n_ in w.own_nodes():
+            if isinstance(n_, (ast.List, ast.Tuple)) and n_.elts and all(isinstance(x, ast.Starred) and is_self_attr(x.value) for x in n_.elts):
+                order = [x.value.attr for x in n_.elts]
+                exts = [n_]
+    obs.append(Ob("E2", clause, w, exts[0] if exts else w.node, order == ["dihedrals", "impropers"], "torsion loop lists dihedrals then impropers (%s)" % order, slot="torsion-order",
+                  positive=bool(order)))
+    # the torsion block is written whenever there is a dihedral OR an improper
+    tblock = None
+    for n_ in w.own_nodes():
+        if isinstance(n_, ast.If) and any(is_self_attr(x, "impropers") for b in n_.body for x in ast.walk(b)):
+            tblock = n_
+    if tblock is not None:
+        gtxt = ast.unparse(tblock.test)
+        both = "self.dihedrals" in gtxt and "self.impropers" in gtxt and isinstance(tblock.test, ast.BoolOp) and isinstance(tblock.test.op, ast.Or)
+        obs.append(Ob("E2", clause, w, tblock, both,
+                      "torsion loop is written when there are dihedrals OR impropers (guard: %s)" % gtxt[:70], slot="torsion-guard",
+                      positive=("self.dihedrals" in gtxt) != ("self.impropers" in gtxt)))
     return obs
 
 
@@ -469,13 +513,15 @@ def E_cif_labels(repo, clause):
             ok = shape and before
             labels = app[0].value.func.value.id
             detail = "label = element + running count per element, counter incremented before use (injective by construction): shape=%s order=%s" % (shape, before)
-    obs.append(Ob("E6", clause, w, loops[0] if loops else w.node, ok, detail, slot="label-generation"))
+    obs.append(Ob("E6", clause, w, loops[0] if loops else w.node, ok, detail, slot="label-generation",
+                  positive=len(loops) == 1 and "shape=True order=False" in detail))
     # every term label column is looked up through the same label list
     n = 0
     for c in ast.walk(w.node):
         if isinstance(c, ast.ListComp) and isinstance(c.elt, ast.Subscript) and isinstance(c.elt.value, ast.Name) and labels and c.elt.value.id == labels:
             n += 1
-    obs.append(Ob("E6", clause, w, w.node, n >= 9, "term loops write atom labels through the generated label list (%d columns)" % n, construct="[atom_labels[i] for i in ...]", slot="term-labels"))
+    obs.append(Ob("E6", clause, w, w.node, n >= 9, "term loops write atom labels through the generated label list (%d columns)" % n, construct="[atom_labels[i] for i in ...]", slot="term-labels",
+                  undecided=n >= 1))
     # reader: resolves through atom_name.index
     idx = [c for c in calls_in(r) if isinstance(c.func, ast.Attribute) and c.func.attr == "index"]
     names = {ast.unparse(c.func.value) for c in idx}
@@ -558,7 +604,9 @@ def E4_cml(repo, clause):
     if bl and mname:
         subs = [s for s in ast.walk(bl[0].value) if isinstance(s, ast.Subscript) and isinstance(s.value, ast.Name) and s.value.id == mname]
         ok = len(subs) == 2 and not any(isinstance(c, ast.Call) and call_name(c) == "int" for c in ast.walk(bl[0].value))
-    obs.append(Ob("E4", clause, fn, bl[0] if bl else fn.node, ok, "both bond endpoints are resolved through the id map (ids are never parsed as numbers)", slot="bond-resolution"))
+    parsed = bool(bl) and any(isinstance(c, ast.Call) and call_name(c) in ("int", "float") for c in ast.walk(bl[0].value))
+    obs.append(Ob("E4", clause, fn, bl[0] if bl else fn.node, ok, "both bond endpoints are resolved through the id map (ids are never parsed as numbers)", slot="bond-resolution",
+                  positive=parsed))
     ar = [n for n in fn.own_nodes() if isinstance(n, ast.Subscript) and const_value(n.slice) == "atomRefs2"]
     ok = len(ar) == 1 and isinstance(fn.parents.get(fn.parents.get(ar[0])), ast.Call) and call_name(fn.parents.get(fn.parents.get(ar[0]))) == "split"
     obs.append(Ob("E4", clause, fn, ar[0] if ar else fn.node, ok, "atomRefs2 is split on whitespace into the two references", slot="atomrefs-split"))
@@ -599,9 +647,15 @@ def E_bond_cutoff(repo, clause):
         else:
             ok = False
     ok = ok and seen_pol == {True, False}
-    obs.append(Ob("E7", clause, mb, mb.node, ok,
-                  "cutoff = r(el1) + r(el2) + 0.45 when el1 OR el2 is a non-metal, else r(el1) + r(el2) (decision list: %s)" % (str(dl)[:200] if not ok else "2 leaves as required"),
+    obs.append(Ob("E7", clause, mb, mb.node, ok, positive=(len(dl) == 2),
+                  detail="cutoff = r(el1) + r(el2) + 0.45 when el1 OR el2 is a non-metal, else r(el1) + r(el2) (decision list: %s)" % (str(dl)[:200] if not ok else "2 leaves as required"),
                   construct="def max_bond_length", slot="cutoff-formula"))
+    ins = [n for n in mb.own_nodes() if isinstance(n, ast.Compare) and len(n.ops) == 1 and isinstance(n.ops[0], ast.In) and isinstance(n.left, ast.Name)
+           and "NON_METALS" in ast.unparse(n.comparators[0])]
+    tested = {n.left.id for n in ins}
+    obs.append(Ob("E7", clause, mb, ins[0] if ins else mb.node, tested == set(mb.params[:2]),
+                  "the non-metal allowance is decided by testing BOTH elements (tested: %s)" % sorted(tested), slot="both-elements-tested",
+                  positive=bool(ins) and tested < set(mb.params[:2])))
     fn = repo.fn("detect_bonds")
     cmp_ = [n for n in fn.own_nodes() if isinstance(n, ast.Compare) and any(isinstance(c, ast.Call) and call_name(c) == "max_bond_length" for c in ast.walk(n))]
     if len(cmp_) != 1:
@@ -651,7 +705,19 @@ def E_bond_cutoff(repo, clause):
     no_cell = [n for n in offs if n not in with_cell]
     ok = len(with_cell) == 1 and len(no_cell) == 1 and any(pol and "cell is not None" in ast.unparse(t) for t, pol, k in norm_guards(fn, with_cell[0])) \
         and re.sub(r"[\s.]", "", ast.unparse(no_cell[0].value)).replace("00", "0") in ("nparray([[0,0,0]])",)
-    obs.append(Ob("E7", clause, fn, with_cell[0] if with_cell else fn.node, ok, "all neighbour-image offsets when a cell exists, only the zero offset otherwise", slot="images"))
+    pos_bad = False
+    why_img = ""
+    if not ok:
+        from .common import vec_mat_form
+        for n_ in offs:
+            ev = expand(fn, n_.value)
+            if isinstance(ev, ast.Subscript) and isinstance(ev.value, ast.Call) and call_name(ev.value) == "uc_neighbor_offsets":
+                pos_bad, why_img = True, " -- only a SUBSET of the image offsets is used (%s)" % ast.unparse(ev)[:60]
+            form = vec_mat_form(ev, lambda x: ast.unparse(x).endswith(".cell"))
+            if form == "M.T":
+                pos_bad, why_img = True, " -- image offsets are built as multipliers . cell.T, i.e. combinations of the COLUMNS of the cell, not of the lattice vectors"
+    obs.append(Ob("E7", clause, fn, with_cell[0] if with_cell else (offs[0] if offs else fn.node), ok,
+                  "all neighbour-image offsets when a cell exists, only the zero offset otherwise" + why_img, slot="images", positive=pos_bad))
     img = [n for n in fn.own_nodes() if isinstance(n, ast.Assign) and isinstance(n.value, ast.BinOp) and isinstance(n.value.op, ast.Add)
            and any(isinstance(x, ast.Name) and "offset" in x.id for x in ast.walk(n.value))]
     ok = len(img) == 1 and o.target.elts[1].id in ast.unparse(img[0].value)
@@ -801,7 +867,7 @@ def E_retype(repo, clause):
     obs.append(Ob("E9", clause, fn, stores["atom_types"], ok3, "per-atom type id = position of the atom's UFF type in the unique list", slot="type-ids"))
     # unique list built from the per-atom types; prefix expression same in sort key and element table
     ud = [n for n in fn.own_nodes() if isinstance(n, ast.Assign) and isinstance(n.targets[0], ast.Name) and n.targets[0].id == U]
-    ok4 = len(ud) == 1 and re.sub(r"\s", "", ast.unparse(ud[0].value)) == "list(set(%s))" % t
+    ok4 = len(ud) == 1 and re.sub(r"\s", "", ast.unparse(ud[0].value)) in ("list(set(%s))" % t, "sorted(set(%s))" % t, "sorted(list(set(%s)))" % t)
     obs.append(Ob("E9", clause, fn, ud[0] if ud else fn.node, ok4, "unique list = set of the given per-atom types", slot="unique-source"))
     lam = [n for n in fn.own_nodes() if isinstance(n, ast.Lambda)]
     same_prefix = False
@@ -886,7 +952,11 @@ def E_override_both_directions(repo, clause):
     rev = [c for c in cd if ast.unparse(c.args[0]) == topo and isinstance(c.args[1], ast.Call) and call_name(c.args[1]) == "flip"
            and ast.unparse(c.args[1].args[0]) == new and const_value(kwarg(c.args[1], "axis") or (c.args[1].args[1] if len(c.args[1].args) > 1 else None)) == 1]
     rev += [c for c in cd if ast.unparse(c.args[0]) == topo and re.sub(r"\s", "", ast.unparse(c.args[1])) in ("%s[:,::-1]" % new,)]
-    obs.append(Ob("E11", clause, fe, fwd[0] if fwd else fe.node, len(fwd) == 1, "existing terms on the same atoms in the same order are found", slot="forward"))
+    sorts = [c for c in calls_in(fe) if call_name(c) in ("sort", "sorted") and any(isinstance(x, ast.Name) and x.id in (topo, new) for x in ast.walk(c))]
+    obs.append(Ob("E11", clause, fe, fwd[0] if fwd else (sorts[0] if sorts else fe.node), len(fwd) == 1,
+                  "existing terms on the same atoms in the same order are found" + (
+                      " -- tuples are SORTED before comparison: terms on the same atom set but with a different centre/order are conflated" if sorts else ""),
+                  slot="forward", positive=bool(sorts)))
     obs.append(Ob("E11", clause, fe, rev[0] if rev else fe.node, len(rev) == 1, "existing terms on the same atoms in reversed order are found (new tuples flipped along the atom axis)", slot="reverse"))
     def _is_zero_test(c):
         par = fe.parents.get(c)
@@ -907,7 +977,9 @@ def E_override_both_directions(repo, clause):
             if isinstance(n, ast.Assign) and isinstance(n.targets[0], ast.Name):
                 defs[n.targets[0].id] = n.value
         ok = len(parts) == 2 and all(p in defs for p in parts) and {id(c) for p in parts for c in ast.walk(defs[p]) if isinstance(c, ast.Call) and call_name(c) == "cdist"} == {id(fwd[0]), id(rev[0])} if fwd and rev else False
-    obs.append(Ob("E11", clause, fe, rets[0] if rets else fe.node, bool(ok), "both index lists are returned (union of forward and reverse hits)", slot="both-returned"))
+    single = len(rets) == 1 and isinstance(rets[0].value, ast.Name)
+    obs.append(Ob("E11", clause, fe, rets[0] if rets else fe.node, bool(ok), "both index lists are returned (union of forward and reverse hits)", slot="both-returned",
+                  positive=single))
     # call sites: computed against the array before the new rows are appended
     for k in KINDS:
         cs = [c for c in calls_named(ex, "find_existing_topo") if c.args and is_self_attr(c.args[0], "%ss" % k)]
